@@ -362,7 +362,7 @@ register('C01', corr=trace_corr('gateway', 'gwcases', (48, 1600), lambda op, cod
                       'u64 timestamps: block time monotone and below 2^64'])
 register('C02', corr=trace_corr('gateway', 'gwcases', (48, 1600), lambda op, code: op['op'] in ('approve', 'validate', 'isApproved', 'isExecuted') and code & 15, GW_RULE, gw_nontrivial),
          assumptions=['collision-freedom only as the explicit hypothesis of c02_binding'])
-register('C03', corr=trace_corr('gateway', 'gwcases', (48, 1600), lambda op, code: op['op'] in ('rotate', 'transferOp', 'init') and code & 9, GW_RULE, gw_nontrivial),
+register('C03', corr=trace_corr('gateway', 'gwcases', (48, 1600), lambda op, code: op['op'] in ('rotate', 'transferOp', 'init', 'approve') and code & 9, GW_RULE, gw_nontrivial),
          assumptions=['block time monotone (now >= last rotation timestamp) and below 2^64; the upgrade endpoint is not modelled'])
 
 
@@ -378,7 +378,9 @@ def tm_nontrivial(tr):
     return any(oks) and not all(oks)
 
 
-register('C09', corr=trace_corr('tm', 'tmcases', (60, 2000), lambda op, code: op['op'] in ('give', 'take', 'setLimit', 'init') and code & 25, TM_RULE, tm_nontrivial),
+# who holds the flow-limiter role is decided by the role operations: their acceptance and storage effect belong to C09's last sentence
+TM_ROLE_OPS = ('addFL', 'removeFL', 'transferFL', 'transferOp', 'proposeOp', 'acceptOp', 'upgrade')
+register('C09', corr=trace_corr('tm', 'tmcases', (60, 2000), lambda op, code: (op['op'] in ('give', 'take', 'setLimit', 'init') and code & 25) or (op['op'] in TM_ROLE_OPS and code & 9), TM_RULE, tm_nontrivial),
          assumptions=['block timestamp below 2^64; amounts are unbounded naturals (BigUint)'])
 register('C10', corr=trace_corr('tm', 'tmcases', (60, 2000), lambda op, code: op['op'] != 'setLimit' and code & 31, TM_RULE, tm_nontrivial),
          assumptions=['the manager holds the ESDT local mint/burn roles of its token (granted by the harness as the token owner would)',
